@@ -184,7 +184,7 @@ def random_tree(rng, depth, want='N'):
     return f'{random_tree(rng, depth - 1, k)}{op}{random_tree(rng, depth - 1, k)}'
 
 
-def plan(tier, seed):
+def _plan(tier, seed):
     shards = []
     if tier == 'quick':
         for part in range(10):
@@ -450,6 +450,9 @@ def run_sheets(shard, ctx):
 
 
 def run_shard(shard, ctx):
+    if isinstance(shard, dict) and 'mixed' in shard:
+        from ..mixed import run_mixed
+        return run_mixed(ctx, ID, shard['n'])
     if shard.get('kind') == 'sheets':
         return run_sheets(shard, ctx)
     if 'replay' in shard:
@@ -494,3 +497,8 @@ def run_shard(shard, ctx):
 def finish(r, tier, seed):
     return {'exhaustive': False,
             'exhaustive_subspaces': ['operator chains of length 1 and 2 over all 11 binary operators with the stated decorations']}
+
+
+def plan(tier, seed):
+    # 'mixed': operators and comparisons over the results of functions (vf/mixed.py)
+    return _plan(tier, seed) + [{'mixed': k, 'n': 3 if tier == 'quick' else 60} for k in range(2 if tier == 'quick' else 8)]
